@@ -233,7 +233,8 @@ RECURSIVE SeqOfSet(_)
 SeqOfSet(S) == IF S = {} THEN <<>>
                ELSE LET x == CHOOSE y \in S : \A z \in S : Order(y) <= Order(z) IN <<x>> \o SeqOfSet(S \ {x})
 DropEvents(store, drop) ==
-    LET labs == SeqOfSet({ip \in drop : store[ip].lab}) IN [i \in 1..Len(labs) |-> [type |-> "del", ip |-> labs[i]]]
+    \* (an object that was listed but is gone by the time it would be deleted produces no event)
+    LET labs == SeqOfSet({ip \in drop \cap DOMAIN store : store[ip].lab}) IN [i \in 1..Len(labs) |-> [type |-> "del", ip |-> labs[i]]]
 
 (* ---- reservation watch events ------------------------------------------ *)
 HandleFIPAssign(mem, ip, key, policy, now) ==
